@@ -17,10 +17,10 @@ RULE = ("pairs/triples of signed-cost vectors (m=1..8) with markers: coordinates
 ASSUMPTIONS = ["markers are non-negative (False/True/0/0.5/1/2.5): the statement does not order negative markers",
                "magnitudes are capped at 1e100 and epsilons to [1e-9,1e6] so that cost/epsilon neither overflows nor "
                "underflows",
-               "the epsilon clauses use separated pairs only: coordinates exactly equal or >= 1e-9 relatively apart"]
+               "the epsilon clauses use separated pairs only: coordinates exactly equal or >= 1e-12 relatively apart (~10^4 ulps)"]
 
 MARKERS = [False, True, 0, 0.0, 0.5, 1, 2.5]
-grid = st.integers(0, 3).map(float)
+grid = st.integers(-2, 3).map(float)      # negative = maximised objectives; hash(-1.0) == hash(-2.0) in CPython
 mag = st.floats(1e-100, 1e100, allow_nan=False, allow_infinity=False)
 wide = st.one_of(st.just(0.0), st.just(-0.0), mag, mag.map(lambda x: -x),
                  st.floats(-1e3, 1e3, allow_nan=False, allow_infinity=False).map(
@@ -56,10 +56,7 @@ def pair_cases(draw, max_m=8):
                 # the Pareto comparator (the epsilon clause skips such pairs, they are not "separated")
                 import math as _m
                 up = draw(st.booleans())
-                v = p[i]
-                for _ in range(draw(st.sampled_from([1, 1, 3, 1000000]))):
-                    v = _m.nextafter(v, _m.inf if up else -_m.inf)
-                q[i] = v
+                q[i] = _m.nextafter(p[i], _m.inf if up else -_m.inf, steps=draw(st.sampled_from([1, 1, 3, 1000000])))
                 continue
             d = draw(st.one_of(st.integers(1, 3).map(float), st.floats(1e-6, 1e3)))
             step = max(d, abs(p[i]) * 1e-6)
@@ -83,12 +80,24 @@ def _nt_pair(p, q):
     return tie or mixed or (len(a) >= 2 and O.verdict(p, q) != 0)
 
 
+_shared = {}
+
+
 def check_pareto_pair(case):
     from artap.operators import ParetoDominance
     p, q = case["p"], case["q"]
     with guard("pareto"):
+        # a comparator object lives as long as its selector / archive: one instance is reused across all cases of this
+        # process and must answer like a fresh one (no state may survive a comparison)
+        if "pareto" not in _shared:
+            _shared["pareto"] = ParetoDominance()
+        sv = _shared["pareto"].compare(list(p), list(q))
         cmp_ = ParetoDominance()
         v = cmp_.compare(list(p), list(q))
+    if sv != v:
+        raise Violation("pareto", "stateful-comparator", "a comparator that has been used before answers %r for (%r, %r), a "
+                        "fresh one %r" % (sv, p, q, v))
+    with guard("pareto"):
         w = cmp_.compare(list(q), list(p))
         rp = cmp_.compare(list(p), list(p))
         rq = cmp_.compare(list(q), list(q))
@@ -168,8 +177,8 @@ def separated(p, q):
             continue
         if 0 < abs(x) < 1e-100 or 0 < abs(y) < 1e-100:
             return False      # outside the stated magnitude domain (underflow of cost/epsilon)
-        if abs(x - y) < 1e-9 * max(abs(x), abs(y)):
-            return False
+        if abs(x - y) < 1e-12 * max(abs(x), abs(y)):
+            return False       # within ~10^4 ulps: "rounding error" for the scaled comparison
     return True
 
 
